@@ -75,6 +75,7 @@ class Engine(ValueOps, ExprOps, CallOps, StmtOps):
             except Exception:
                 pass
         self.spec_mode = False
+        self.read_log = None
         self.old_state = None
         self.ctx_stack = []
         self.loop_ord_stack = []
@@ -287,13 +288,24 @@ class Engine(ValueOps, ExprOps, CallOps, StmtOps):
             res = self._spec_result(app, sf)
             depth = self.spec_depth.get(name, 0)
             key = ('unfold', app, st.ver)
+            outer_log = getattr(self, 'read_log', None)
+            if outer_log is not None:
+                outer_log |= set(sf.reads)
             if depth < sf.fuel and key not in self.seq_axioms_done and not getattr(self, 'no_unfold', False):
                 self.seq_axioms_done.add(key)
                 self.spec_depth[name] = depth + 1
+                self.read_log = set()
                 try:
                     body = self.spec_apply(fd, full, sf.ret)
                 finally:
                     self.spec_depth[name] = depth
+                    mine = self.read_log
+                    self.read_log = outer_log
+                missing = sorted(mine - set(sf.reads))
+                if missing:
+                    # the application term is indexed by the versions of the heaps in `reads`: an undeclared read would
+                    # let one term stand for values in two different heap states
+                    raise Unsupported('specification function %s reads %s, which its reads=%r does not list' % (name, missing, sf.reads), node)
                 st.assume(self._spec_eq(res, body, sf), 'def')
             return res
         finally:
@@ -537,6 +549,14 @@ class Engine(ValueOps, ExprOps, CallOps, StmtOps):
                     st.bump('DICT')
                 elif it.startswith('list(') and it.endswith(')'):
                     l = self.spec_eval(it[5:-1])
+                    if l.kind == 'val':
+                        l = self.narrow(l)
+                    if l.kind == 'tuple':
+                        continue                     # an immutable sequence cannot be modified
+                    if l.kind == 'list' and l.owned:
+                        self.materialise(l)          # a local list handed to the callee: it gets an identity
+                    if l.term is None:
+                        raise Unsupported('modifies item %s does not denote a heap list' % it)
                     q = st.decls.const('qh', 'Int')
                     st.assume(mk_le('0', "(len %s)" % q), 'wf')
                     st.seqh = mk_store(self.seqheap(), l.term, q)
@@ -561,6 +581,10 @@ class Engine(ValueOps, ExprOps, CallOps, StmtOps):
         self.called_contracts.add(con.key)
         env = self.bind_params(fi, selfsv, args, kwargs, node)
         saved_env = st.env
+        for it in con.modifies:
+            # a local (pure) list that the callee may modify gets its heap identity before the pre-state is recorded
+            if it.startswith('list(') and it[5:-1] in env and env[it[5:-1]].kind == 'list' and env[it[5:-1]].owned:
+                self.materialise(env[it[5:-1]])
         pre = st.snapshot()
         pre.env = dict(env)
         ln = getattr(node, 'lineno', 0)
@@ -826,6 +850,10 @@ class Engine(ValueOps, ExprOps, CallOps, StmtOps):
             excl = []
             for x in lists:
                 l = self.spec_builtin_old_eval(x[5:-1], pre)
+                if l.kind == 'val':
+                    l = self.narrow(l)
+                if l.kind != 'list' or l.term is None:
+                    continue                         # tuples are immutable; a local list has no pre-state identity
                 excl.append(mk_not(mk_eq('r', l.term)))
             goal = "(forall ((r Int)) %s)" % mk_implies(mk_and(mk_lt('r', pre.alloc), *excl),
                                                        mk_eq(mk_select(st.seqh, 'r'), mk_select(pre.seqh, 'r')))
